@@ -603,6 +603,45 @@ theorem repoGC_flow_agrees (e : Env) (q : List (Bytes × Bytes)) (v : Nat → Bo
     simp [Gen.C12.repoGCHandlerFlow, interp, stepEvs, guardHolds, failTail, armEvs, armReturns, absEv, statusOf, opOks,
       repoGCH, HOut.abs, hf, h58, h59, h60, h61, h63, hg]
 
+/-- repo/stat (round 8c): the interpreted structure and the hand-written model agree on the status, on the outcome of the one
+    plain RPC (`Consensus.Peers`), on the MultiCall being issued iff `Peers` succeeded, and the model lists after `Peers` exactly one
+    `RepoStat` outcome per peer (none when `Peers` failed) — every environment, every valuation of the loop atoms -/
+theorem repoStat_flow_agrees (e : Env) (v : Nat → Bool) :
+    statusOf (interp v (fun k => k == 1 && e.fail .peers) 0 Gen.C12.repoStatHandlerFlow) = (repoStatH e).status ∧
+    opOks (interp v (fun k => k == 1 && e.fail .peers) 0 Gen.C12.repoStatHandlerFlow) = ((repoStatH e).rpcs.take 1).map (·.ok) ∧
+    (interp v (fun k => k == 1 && e.fail .peers) 0 Gen.C12.repoStatHandlerFlow).contains (.multi 22 49) = !(e.fail .peers) ∧
+    ((repoStatH e).rpcs.drop 1).length = (if e.fail .peers then 0 else e.npeers) ∧
+    ((repoStatH e).rpcs.drop 1).all (fun r => r.name == .repoStat) = true := by
+  cases hf : e.fail .peers <;> cases h44 : v 44 <;> cases h50 : v 50 <;> cases h51 : v 51 <;> cases h52 : v 52 <;>
+    simp [Gen.C12.repoStatHandlerFlow, interp, stepEvs, guardHolds, failTail, armEvs, armReturns, statusOf, opOks,
+      repoStatH, hf, h44, h50, h51, h52]
+
+example : statusOf (interp (fun _ => false) (fun k => k == 1 && ({ fails := [.peers] } : Env).fail .peers) 0
+    Gen.C12.repoStatHandlerFlow) = 500 := by decide
+
+/-- the adder of the add model succeeds (root present, body / options accepted, block RPCs and `Cluster.Pin` succeed) -/
+def addAdderOk (e : Env) (q : List (Bytes × Bytes)) : Bool :=
+  !(addNoRoot e q || e.ing == 1 || e.fail .blockAllocate || e.fail .blockPut || e.fail .pin)
+
+/-- the failure script of `addHandlerFlow` that corresponds to an environment: positions 1 (MultipartReader), 4
+    (AddParamsFromQuery), 6 (AddMultipartHTTPHandler), 8 (the trailing Cluster.Unpin) -/
+def addScript (e : Env) (q : List (Bytes × Bytes)) (k : Nat) : Bool :=
+  (k == 1 && e.ing == 0) || (k == 4 && addParamsErr q) || (k == 6 && !addAdderOk e q) || (k == 8 && e.fail .unpin)
+
+/-- NOT PROVED (round 8c ran out of time: the direct 12-way Boolean case split exceeds the heartbeat limit; needs staged
+    rewriting per arm of `addH`). Statement kept: `addHandlerFlow` and `addH` agree on the trailing-Unpin outcomes, on the plain
+    500 of the arms before the adder, and on status / X-Stream-Error once the adder succeeded. -/
+def add_flow_agrees : Prop :=
+  ∀ (e : Env) (q : List (Bytes × Bytes)) (obs : AddObs) (v : Nat → Bool),
+    v 34 = (qGet q b!"only-hash" == b!"true") → v 40 = !(qGet q b!"pin" == b!"false") →
+    opOks (interp v (addScript e q) 0 Gen.C12.addHandlerFlow) =
+      (((addH true e q obs).rpcs.filter (fun r => r.name == .unpin)).map (·.ok)) ∧
+    ((interp v (addScript e q) 0 Gen.C12.addHandlerFlow).any (fun ev => ev == .adder true || ev == .adder false) = false →
+      addH true e q obs = { status := 500 } ∧ statusOf (interp v (addScript e q) 0 Gen.C12.addHandlerFlow) = 500) ∧
+    ((interp v (addScript e q) 0 Gen.C12.addHandlerFlow).contains (.adder true) = true →
+      (addH true e q obs).status = 200 ∧
+      (addH true e q obs).serr = ((interp v (addScript e q) 0 Gen.C12.addHandlerFlow).contains .serr && addStream q))
+
 /-- pin/update with at least two arguments -/
 theorem pinUpdate_flow_agrees (e : Env) (q : List (Bytes × Bytes)) (v : Nat → Bool) (frm tgt : Bytes) (rest : List Bytes)
     (hq : qAll q b!"arg" = frm :: tgt :: rest) (h18 : v 18 = false) (h19 : v 19 = false)
